@@ -180,6 +180,11 @@ pub enum Op
     /* delete the cache entry holding exactly these bytes, if any */
     DeleteCacheContent{ content : Vec<u8> },
     DeleteRulerDir{ part : DirPart },
+    /* `mv from to` by the user: the moved file keeps its (older) modification time */
+    Move{ from : String, to : String },
+    /* storage fault on a state file between invocations: the pick-th history file (or the table when
+       `table`) is truncated to `keep` bytes, or replaced by garbage when `keep` is None */
+    DamageState{ table : bool, pick : u32, keep : Option<u32> },
 }
 
 impl Op
@@ -208,6 +213,8 @@ impl Op
             Op::DeleteCacheEntry{..} => "delete-cache-entry",
             Op::DeleteCacheContent{..} => "delete-cache-content",
             Op::DeleteRulerDir{..} => "delete-ruler-dir",
+            Op::Move{..} => "move",
+            Op::DamageState{..} => "damage-state-file",
         }
     }
 
@@ -228,6 +235,9 @@ impl Op
             Op::DeleteCacheEntry{ pick } => o.set("pick", J::Int(*pick as i64)),
             Op::DeleteCacheContent{ content } => o.set("content", J::Str(show_bytes(content))),
             Op::DeleteRulerDir{ part } => o.set("part", J::Str(format!("{:?}", part))),
+            Op::Move{ from, to } => o.set("from", J::s(from)).set("to", J::s(to)),
+            Op::DamageState{ table, pick, keep } => o.set("file", J::Str(if *table { "current_file_states".to_string() } else { format!("history file #{}", pick) }))
+                .set("how", J::Str(match keep { Some(n) => format!("truncated to {} bytes", n), None => "replaced by garbage".to_string() })),
         }
     }
 }
